@@ -137,7 +137,7 @@ class SeqWorld:
                 world.ev(ev='start_e', ok=ok)
                 world.last_ok = ok
 
-        # the idle-status hook: the class docstring of SequencerMixin names _ext_state(), the code calls readHwStatus()
+        # the idle-status hook is readHwStatus() (documented); a module that only defines _ext_state() has no hook
         if hook != 'none':
             setattr(SeqMod, {'hw': 'readHwStatus', 'ext': '_ext_state'}[hook], lambda self: (self.Status.WARN, 'hook'))
         self.cls = SeqMod
